@@ -21,7 +21,7 @@ ND = "naive::date::NaiveDate::"
 def run(chk, tier):
     P = Prog("default")
     chk.configs.add("default")
-    for r in (r_operators, r_offset_independent, r_iterators, r_size_hint, r_absint):
+    for r in (r_operators, r_offset_independent, r_iterators, r_size_hint, r_date_arith, r_absint):
         chk.guarded(r, P, tier)
     chk.assume("that the carry / 400-year-cycle arithmetic is numerically exact (b + (a - b) = a) is not decided")
     return {
@@ -152,3 +152,113 @@ def r_absint(chk, P, tier):
         return base.split("::")[-1] in names and ("naive::" in base or "datetime::DateTime" in base)
     e1.report(chk, P, res, "ABSINT.arith", "arithmetic, casts (`days as i32`) and construction sites on the checked add/sub paths are discharged or justified",
               fn_filter=flt, floor=25)
+
+
+def r_date_arith(chk, P, tier):
+    """Day arithmetic on plain dates as a region-representative value map. add_days has a same-year fast path and a 400-year-cycle path whose pieces are delimited by
+    ordinal 0 / 365 / 366, the year-class table and the range ends. The def-use terms are folded (no execution) for base dates at both ends, around the leap day and in the
+    middle of one year per year class (all 14 classes) and at both ends of the supported range, with day counts on both sides of every piece boundary (a month, a year
+    with and without leap day, four years, a century, a 400-year cycle, the whole range, the i32 ends), against day-number arithmetic of the calendar oracle. The
+    TimeDelta forms add a partial day of either sign (truncation toward zero); differences are folded for all pairs of base dates."""
+    import calendar_oracle as cal
+    from finmap import Folder, show, Unknown
+    from props.c01 import _date, _yof_of, flags_of, ND as NDT
+    from rules import table_value
+    chk.rule("MAP.date_arith", "add_days, checked_add/sub_days, checked_add/sub_signed and signed_duration_since of NaiveDate folded on all region boundaries equal day-number arithmetic of the calendar", floor=8000)
+    fo = Folder(P, max_depth=12)
+    tbl = [flags_of(c) for c in table_value(P, "naive::internals::YEAR_TO_FLAGS")]
+    miny, maxy = P.value("naive::date::MIN_YEAR"), P.value("naive::date::MAX_YEAR")
+    NS = 10**9
+
+    def yof(y, o):
+        return (y << 13) | (o << 4) | tbl[y % 400]
+    dn_min, dn_max = cal.day_number(miny, 1, 1), cal.day_number(maxy, 12, 31)
+
+    def from_dn(n):
+        y = n * 400 // 146097
+        while cal.day_number(y, 1, 1) > n:
+            y -= 1
+        while cal.day_number(y + 1, 1, 1) <= n:
+            y += 1
+        return y, n - cal.day_number(y, 1, 1) + 1
+    quick = tier != "thorough"
+    reps = {}
+    for y in range(2000, 2400):
+        reps.setdefault(tbl[y % 400], y)
+    bases = []
+    for y in sorted(reps.values()):
+        nd = cal.days_in_year(y)
+        bases += [(y, o) for o in ((1, 60, 200, nd) if tier != "thorough" else (1, 2, 59, 60, 61, 200, nd - 1, nd))]
+    bases += [(miny, 1), (miny, 2), (miny, cal.days_in_year(miny)), (maxy, 1), (maxy, cal.days_in_year(maxy) - 1), (maxy, cal.days_in_year(maxy)), (0, 1), (-1, 365), (1, 1), (-400, 366 if cal.leap(-400) else 365)]
+    mags = (0, 1, 2, 6, 7, 28, 29, 30, 31, 58, 59, 60, 164, 165, 166, 199, 200, 305, 306, 364, 365, 366, 367, 730, 731, 1460, 1461, 1462, 36524, 36525, 146096, 146097, 146098,
+            dn_max - dn_min - 1, dn_max - dn_min, dn_max - dn_min + 1, 2**31 - 2, 2**31 - 1)
+    deltas = sorted({m for m in mags} | {-m for m in mags} | {-(2**31)})
+    bad = {}
+    n_ok = 0
+
+    def fold(fn, args):
+        try:
+            return _yof_of(show(fo.call(NDT + "::" + fn, args)))
+        except Unknown as e:
+            return "unknown: %s" % e
+
+    def want_date(n):
+        if not dn_min <= n <= dn_max:
+            return None
+        return yof(*from_dn(n))
+
+    def td(n):
+        return ("agg", "adt", "time_delta::TimeDelta", "TimeDelta", (("const", n // NS), ("const", n % NS)), 0)
+
+    def days(n):
+        return ("agg", "adt", "naive::Days", "Days", (("const", n),), 0)
+    quick = tier != "thorough"
+    for (y, o) in bases:
+        base = _date(yof(y, o))
+        n0 = cal.day_number(y, 1, 1) + o - 1
+        for d in deltas:
+            got = fold("add_days", [base, ("const", d)])
+            w = want_date(n0 + d)
+            if got == w:
+                n_ok += 1
+            else:
+                bad.setdefault("add_days (%s)" % ("same year" if w is not None and (w >> 13) == y else "other year" if w is not None else "out of range"), ((y, o), d, got, w))
+            if d >= 0 and (not quick or d in (0, 1, 31, 165, 166, 365, 366, 1461, 146097, dn_max - dn_min, 2**31 - 1)):
+                for fn, sg in (("checked_add_days", 1), ("checked_sub_days", -1)):
+                    got = fold(fn, [base, days(d)])
+                    w = want_date(n0 + sg * d)
+                    if got == w:
+                        n_ok += 1
+                    else:
+                        bad.setdefault(fn, ((y, o), d, got, w))
+            if quick and abs(d) not in (0, 1, 31, 166, 365, 366, 146097, dn_max - dn_min):
+                continue
+            if abs(d) > 106751991167:
+                continue
+            for part in (0, 1, 86400 * NS - 1):
+                dur = d * 86400 * NS + (part if d >= 0 else -part)      # |dur| = |d| days + part: truncation toward zero leaves d whole days
+                if abs(dur) > (2**63 - 1) * 10**6:
+                    continue
+                for fn, sg in (("checked_add_signed", 1), ("checked_sub_signed", -1)):
+                    got = fold(fn, [base, td(dur)])
+                    w = want_date(n0 + sg * d)
+                    if got == w:
+                        n_ok += 1
+                    else:
+                        bad.setdefault("%s (%s)" % (fn, "whole days" if part == 0 else "partial day"), ((y, o), dur, got, w))
+    for i, (y1, o1) in enumerate(bases):
+        for (y2, o2) in (bases if not quick else bases[::3] + bases[-10:]):
+            try:
+                v = show(fo.call(NDT + "::signed_duration_since", [_date(yof(y1, o1)), _date(yof(y2, o2))]))
+                got = v[1] * NS + v[2] if isinstance(v, tuple) and v[0] == "TimeDelta::TimeDelta" else v
+            except Unknown as e:
+                got = "unknown: %s" % e
+            w = (cal.day_number(y1, 1, 1) + o1 - cal.day_number(y2, 1, 1) - o2) * 86400 * NS
+            if got == w:
+                n_ok += 1
+            else:
+                bad.setdefault("signed_duration_since", ((y1, o1), (y2, o2), got, w))
+    for _ in range(n_ok):
+        chk.ok("value")
+    for cls, (a, b, got, want) in sorted(bad.items()):
+        chk.bad(cls, "NaiveDate %s: (year, ordinal) %s with %s folds to %s, day-number arithmetic gives %s" % (cls, a, b, got, want), loc=P.loc(NDT + "::add_days"))
